@@ -14,7 +14,7 @@ func init() {
 			}
 			for which := 0; which <= 1; which++ {
 				for _, n := range lens {
-					c := driver.Case{Harness: "verifH_c14_sm9_masterrange", Pkg: "internal/sm9", Config: "purego", Params: P("which", which, "n", n), Overrides: sm9Overrides(), MaxUnwind: 400, TimeoutS: 1200}
+					c := driver.Case{Harness: "verifH_c14_sm9_masterrange", Pkg: "internal/sm9", Config: "purego", Params: P("which", which, "n", n), Overrides: sm9Overrides(), MaxUnwind: 400, TimeoutS: 300}
 					if n >= 1 && n <= 32 {
 						c.MustReach = []string{"accepted"}
 					}
@@ -25,7 +25,7 @@ func init() {
 			ov := sm2Overrides()
 			ov[driver.Module+"/sm2.p256"] = "verifModel_p256"
 			for _, n := range []int{0, 31, 32, 33} {
-				c := driver.Case{Harness: "verifH_c14_sm2_range", Pkg: "sm2", Config: "purego", Params: P("n", n), Overrides: ov, MaxUnwind: 400, TimeoutS: 1200}
+				c := driver.Case{Harness: "verifH_c14_sm2_range", Pkg: "sm2", Config: "purego", Params: P("n", n), Overrides: ov, MaxUnwind: 400, TimeoutS: 300}
 				if n == 32 {
 					c.MustReach = []string{"accepted"}
 				}
@@ -33,7 +33,7 @@ func init() {
 			}
 			// ECDH private scalars
 			for _, n := range []int{0, 31, 32, 33} {
-				cs = append(cs, driver.Case{Harness: "verifH_c14_ecdh_range", Pkg: "ecdh", Config: "purego", Params: P("n", n), Overrides: sm2Overrides(), MaxUnwind: 400, TimeoutS: 1200})
+				cs = append(cs, driver.Case{Harness: "verifH_c14_ecdh_range", Pkg: "ecdh", Config: "purego", Params: P("n", n), Overrides: sm2Overrides(), MaxUnwind: 400, TimeoutS: 300})
 			}
 			return cs
 		},
